@@ -160,6 +160,11 @@ bool CmpNodePos::operator() (const Node* u, const Node* v) const {
     if (v->pos < u->pos) {
         return false;
     }
+    // Break ties on the variable id so that the order (and hence the result
+    // of overlap removal) does not depend on where the nodes were allocated.
+    if (u->v->id != v->v->id) {
+        return u->v->id < v->v->id;
+    }
     return u < v;
 }
 
